@@ -50,9 +50,9 @@ def leaf_array(mode, spec, fmt):
         # values that a single-precision accumulator cannot hold exactly
         big = {2: 30000, 4: 2**28 + 12345}[a.dtype.itemsize]
         a = np.where(a > 0, a.astype(np.int64) * (1 if a.dtype.itemsize == 2 else 1001) + big, 0).astype(a.dtype)
-    for (yy, xx) in spec.get("inf", []):
+    for (yy, xx, *sg) in spec.get("inf", []):
         if a.dtype.kind == "f":
-            a[yy % 256, xx % 256] = np.inf  # non-NaN, hence defined: a block holding it averages to +inf
+            a[yy % 256, xx % 256] = -np.inf if (sg and sg[0]) else np.inf  # non-NaN, hence defined: a block holding it averages to +-inf
     if spec.get("via") == "update2" and a.dtype.kind == "f" and a.ndim == 2:
         # the second painting pass (columns >= 128) extends the data range
         a[3, 200] = np.nanmax(a) + 100 + spec["salt"]
@@ -239,8 +239,11 @@ def cascade_cases(draw, tier, formats=None, want_range=False, modes=None, depth0
                 spec["kind"] = "allnan"
             if draw(st.integers(0, 3)) == 0:
                 spec["via"] = "update2"
-            if not want_range and draw(st.integers(0, 4)) == 0:
+            if draw(st.integers(0, 4)) == 0:
                 spec["inf"] = [[draw(st.integers(0, 255)), draw(st.integers(0, 255))] for _ in range(draw(st.integers(1, 3)))]
+                if want_range:
+                    # only the recorded ranges are judged there: infinities of either sign (a third element 1 means -inf)
+                    spec["inf"] = [e + [draw(st.integers(0, 1))] for e in spec["inf"]]
         if mode in ("I16", "I32") and draw(st.booleans()):
             spec["big"] = True
         leaves.append(spec)
